@@ -3,7 +3,7 @@
 set -e
 d="$1"
 git -C /repo worktree add --detach "$d" HEAD >/dev/null 2>&1
-rsync -a --ignore-existing --exclude .git /repo/ "$d"/
+rsync -a --ignore-existing --exclude .git /repo/ "$d"/ || [ $? -eq 24 ]
 # make sure nothing looks newer than the sources in a way that triggers autotools regeneration
 ( cd "$d" && touch -r /repo/configure configure 2>/dev/null; true )
 echo "$d"
